@@ -70,6 +70,7 @@ def main(argv=None):
     ap.add_argument("--jobs", type=int, default=int(os.environ.get("VERIF_JOBS", "16")))
     ap.add_argument("--only", default=None)
     ap.add_argument("--no-evidence", action="store_true")
+    ap.add_argument("--fail-fast", action="store_true", help="seed trials: stop starting jobs once a counterexample was reported")
     a = ap.parse_args(argv)
     tier = os.environ.get("VERIF_TIER") or a.tier
     if tier not in ("quick", "thorough"):
@@ -154,7 +155,11 @@ def main(argv=None):
     jobs.sort(key=lambda j: -float(j.get("timeout", 60)))
     results = []
 
+    stop = {"flag": False}
+
     def do(j):
+        if stop["flag"]:
+            return {"skipped": True, "label": job_label(j), "job": j, "messages": [], "spec": {}}
         spec = {"module": j.get("module", modname), "func": j["func"], "part": j.get("part", {}),
                 "mode": "check", "timeout": j.get("timeout", 60), "path_timeout": j.get("path_timeout", 30),
                 "known_active": known_active, "twin": j.get("twin", True), "samples": j.get("samples", 2)}
@@ -164,6 +169,8 @@ def main(argv=None):
         r = run_worker(spec, wall)
         r["label"] = job_label(j)
         r["job"] = j
+        if a.fail_fast and any(m.get("state") in ("POST_FAIL", "EXEC_ERR", "POST_ERR") for m in r.get("messages") or []):
+            stop["flag"] = True
         return r
 
     with cf.ThreadPoolExecutor(max_workers=a.jobs) as ex:
@@ -179,6 +186,8 @@ def main(argv=None):
     decided = 0
     for r in results:
         lab = r["label"]
+        if r.get("skipped"):
+            continue
         if r.get("error"):
             problems.append("%s: worker error: %s" % (lab, r["error"][-800:]))
             harness_summ[lab] = {"verdict": "error"}
